@@ -39,8 +39,21 @@ def decode_sweep(lo, hi):
         for f in defn.match_fields:
             mm |= ((1 << f.L) - 1) << f.offset_bits
         mv = base & mm
-        cands = [int.from_bytes(sample_payload(defn, v), 'little') for v in range(6)] + [mv, ((1 << nbits) - 1) & ~mm | mv] + \
-                [(rnd.getrandbits(nbits) & ~mm) | mv for _ in range(12)]
+        # bits that may be randomised: fixed-position fields that are neither match fields nor the length field of a
+        # variable BINARY field; the variable tail (length-prefixed text / binary) keeps its well-formed sample content
+        free = 0
+        variable = False
+        lens = {f.length_field for f in defn.fields if f.length_field}
+        for f in defn.fields:
+            if f.L is None or f.offset_bits is None or f.variable:
+                variable = True
+                break
+            if f.match is None and f.order not in lens:
+                free |= ((1 << f.L) - 1) << f.offset_bits
+        cands = [int.from_bytes(sample_payload(defn, v), 'little') for v in range(6)]
+        if not variable:
+            cands += [mv, ((1 << nbits) - 1) & ~mm | mv]
+        cands += [(base & ~free) | (rnd.getrandbits(nbits) & free) for _ in range(12)]
         for p in cands:
             n += 1
             rp = replay_decoder(defn, p, 'battery')
@@ -298,7 +311,7 @@ def batteries_for(prop):
     if prop in ('C12', 'C13', 'C14', 'C19', 'C20'):
         return [('clients', lambda: ioclient_batteries(prop), H)]
     if prop == 'C17':
-        return [('hash-grid', hash_battery, H)]
+        return [('hash-grid', hash_battery, H), ('decoder-histories', lambda: decoder_batteries(prop), H)]
     if prop == 'C18':
         return [('units', units_battery, H)]
     return []
